@@ -283,6 +283,35 @@ class NPProxy:
             return _np.isnan(a, *args, **kw)
         return self._elementwise(lambda v: (not isinstance(v, Sym)) and v != v, a)
 
+    def nan_to_num(self, a, copy=True, nan=0.0, posinf=None, neginf=None):
+        if not _has_sym(a):
+            return _np.nan_to_num(a, copy=copy, nan=nan, posinf=posinf, neginf=neginf)
+        big = _np.finfo(float).max
+
+        def one(v):
+            if isinstance(v, Sym):
+                return v
+            if v != v:
+                return Sym.lift(nan)
+            if v in (float("inf"), float("-inf")):
+                return Sym.lift((posinf if posinf is not None else big) if v > 0 else (neginf if neginf is not None else -big))
+            return Sym.lift(v)
+        src = _np.asarray(a, dtype=object)
+        out = _np.empty(src.shape, dtype=object)
+        for idx in _np.ndindex(src.shape):
+            out[idx] = one(src[idx])
+        return out.view(SymArray)
+
+    def count_nonzero(self, a, axis=None, **kw):
+        if not _has_sym(a):
+            return _np.count_nonzero(a, axis=axis, **kw)
+        src = _np.asarray(a, dtype=object)
+        flags = _np.zeros(src.shape, dtype=_np.intp)
+        for idx in _np.ndindex(src.shape):
+            v = src[idx]
+            flags[idx] = 1 if (bool(v != 0) if isinstance(v, Sym) else bool(v != 0)) else 0     # a symbolic element forks
+        return flags.sum(axis=axis, **kw)
+
     def gradient(self, f, *varargs, axis=None, edge_order=1):
         """numpy.gradient for 1-D input (its documented second-order interior / first-order edge formulas)"""
         if not (_has_sym(f) or any(_has_sym(v) for v in varargs)):
